@@ -33,33 +33,33 @@ func (f *Fatigue) Spec_Apply(
 	props *model.BiasProps,
 	_ *model.BiasListener,
 ) *model.BiasedResult {
-	parsedProps := parseProps(props)
-	fun := f.getFatigueFunction(parsedProps)
-	funParams := parseFatigueFuncParams(fun, parsedProps)
+	parsedProps := Spec_parseProps(props)
+	fun := f.Spec_getFatigueFunction(parsedProps)
+	funParams := Spec_parseFatigueFuncParams(fun, parsedProps)
 	fatigueRatio := fun.Evaluate(funParams)
 	valueGenerator := f.valueGeneratorSource(parsedProps.RandomSeed)
 	signGenerator := f.signGeneratorSource(parsedProps.RandomSeed)
-	criteria := matchCriteriaWithBoundings(current, props)
-	consideredAlts := blurCriteriaValues(
+	criteria := Spec_matchCriteriaWithBoundings(current, props)
+	consideredAlts := Spec_blurCriteriaValues(
 		current.ConsideredAlternatives, criteria,
 		valueGenerator, signGenerator, fatigueRatio,
 	)
-	notConsideredAlts := blurCriteriaValues(
+	notConsideredAlts := Spec_blurCriteriaValues(
 		current.NotConsideredAlternatives, criteria,
 		valueGenerator, signGenerator, fatigueRatio,
 	)
-	return prepareResult(notConsideredAlts, consideredAlts, current, fatigueRatio)
+	return Spec_prepareResult(notConsideredAlts, consideredAlts, current, fatigueRatio)
 }
 
 func Spec_matchCriteriaWithBoundings(dmp *model.DecisionMakingParams, props *model.BiasProps) []CriterionWithBounding {
-	bounding := criteria_bounding.FromParams(props)
+	bounding := criteria_bounding.Spec_FromParams(props)
 	result := make([]CriterionWithBounding, len(dmp.Criteria))
-	alternatives := dmp.AllAlternatives()
+	alternatives := dmp.Spec_AllAlternatives()
 	for i, c := range dmp.Criteria {
-		valuesRange := model.CriteriaValuesRange(&alternatives, &c)
+		valuesRange := model.Spec_CriteriaValuesRange(&alternatives, &c)
 		result[i] = CriterionWithBounding{
 			criterion: c,
-			bounding:  bounding.WithRange(valuesRange),
+			bounding:  bounding.Spec_WithRange(valuesRange),
 		}
 	}
 	return result
@@ -96,30 +96,30 @@ func Spec_blurCriteriaValues(
 	for i, a := range alternatives {
 		newWeights := make(model.Weights, len(criteria))
 		for _, c := range criteria {
-			currentValue := a.CriterionRawValue(&c.criterion)
+			currentValue := a.Spec_CriterionRawValue(&c.criterion)
 			eps := currentValue * valueGenerator() * fatigueRatio
 			sign := 1.0
 			if signGenerator() >= 0.5 {
 				sign = -1
 			}
 			blurredValue := currentValue + (eps * sign)
-			boundedBlurredValue := c.bounding.BoundValue(blurredValue)
+			boundedBlurredValue := c.bounding.Spec_BoundValue(blurredValue)
 			newWeights[c.criterion.Id] = boundedBlurredValue
 		}
-		newAlternatives[i] = *a.WithCriteriaValues(&newWeights)
+		newAlternatives[i] = *a.Spec_WithCriteriaValues(&newWeights)
 	}
 	return newAlternatives
 }
 
 func Spec_parseFatigueFuncParams(fun FatigueFunction, parsedProps *FatigueParams) FatigueFunctionParams {
 	funParams := fun.BlankParams()
-	utils.DecodeToStruct(parsedProps.Params, funParams)
+	utils.Spec_DecodeToStruct(parsedProps.Params, funParams)
 	return funParams
 }
 
 func Spec_parseProps(props *model.BiasProps) *FatigueParams {
 	parsedProps := FatigueParams{}
-	utils.DecodeToStruct(*props, &parsedProps)
+	utils.Spec_DecodeToStruct(*props, &parsedProps)
 	return &parsedProps
 }
 
